@@ -18,26 +18,100 @@ import (
 	"errors"
 	"fmt"
 	"os"
+	"runtime"
 	"strconv"
 	"strings"
+	"sync"
+	"sync/atomic"
 	"testing"
 	"testing/synctest"
 	"time"
 )
 
+// verifC20Hook is a one-shot reaction to the sweeper's removal broadcast of (ch, key): the event handler is
+// the gate.  conc=false: the op is issued from inside that HandlePublication call (the sweeper is between two
+// phase-2 regions, holding only the publish lock of the removal's channel).  conc=true: the op is issued from
+// another goroutine while the call is in flight; the handler yields (no timers: a goroutine blocked on a mutex
+// keeps the synctest clock from advancing) and completes the delivery of the removal afterwards.
+type verifC20Hook struct {
+	ch, key string
+	conc    bool
+	cmd     string
+	kv      map[string]string
+}
+
 type verifC20Handler struct {
-	rec []string
-	fmt func(ch string, pub *Publication, sp StreamPosition, useDelta bool, prev *Publication) string
+	mu       sync.Mutex
+	rec      []string
+	fmt      func(ch string, pub *Publication, sp StreamPosition, useDelta bool, prev *Publication) string
+	sc       *verifC20Scenario
+	hooks    []verifC20Hook
+	sleeping atomic.Bool // the driver goroutine sleeps: publications come from the sweeper
+	inline   atomic.Bool // an inline reaction is running (its own broadcasts must not fire hooks)
+}
+
+func (h *verifC20Handler) add(item string) {
+	h.mu.Lock()
+	h.rec = append(h.rec, item)
+	h.mu.Unlock()
+}
+
+func (h *verifC20Handler) takeHook(ch, key string) (verifC20Hook, bool) {
+	h.mu.Lock()
+	defer h.mu.Unlock()
+	for i, hk := range h.hooks {
+		if hk.ch == ch && hk.key == key {
+			h.hooks = append(h.hooks[:i:i], h.hooks[i+1:]...)
+			return hk, true
+		}
+	}
+	return verifC20Hook{}, false
 }
 
 func (h *verifC20Handler) HandlePublication(ch string, pub *Publication, sp StreamPosition, useDelta bool, prevPub *Publication) error {
-	h.rec = append(h.rec, h.fmt(ch, pub, sp, useDelta, prevPub))
+	item := h.fmt(ch, pub, sp, useDelta, prevPub)
+	if pub.Removed && h.sleeping.Load() && !h.inline.Load() {
+		if hk, ok := h.takeHook(ch, pub.Key); ok {
+			opch := "c" + hk.kv["ch"]
+			sameLock := index(opch, numPubLocks) == index(ch, numPubLocks)
+			hkItem := func(res string) string {
+				return "hk:" + hk.kv["ch"] + ":" + strings.ReplaceAll(res, " ", ";")
+			}
+			if hk.conc && sameLock {
+				var done atomic.Bool
+				go func() {
+					res := h.sc.step(hk.cmd, hk.kv)
+					h.add(hkItem(res))
+					done.Store(true)
+				}()
+				for i := 0; i < 20000 && !done.Load(); i++ {
+					runtime.Gosched()
+				}
+				h.add(item) // the removal is delivered when its handler call completes
+				return nil
+			}
+			h.add(item)
+			if sameLock {
+				// would self-deadlock on the unmodified tree (the sweeper holds this publish lock)
+				h.add("hk:refused-same-lock")
+				return nil
+			}
+			h.inline.Store(true)
+			res := h.sc.step(hk.cmd, hk.kv)
+			h.inline.Store(false)
+			h.add(hkItem(res))
+			return nil
+		}
+	}
+	h.add(item)
 	return nil
 }
 func (h *verifC20Handler) HandleJoin(string, *ClientInfo) error  { return nil }
 func (h *verifC20Handler) HandleLeave(string, *ClientInfo) error { return nil }
 
 func (h *verifC20Handler) drain() string {
+	h.mu.Lock()
+	defer h.mu.Unlock()
 	if len(h.rec) == 0 {
 		return "-"
 	}
@@ -47,6 +121,7 @@ func (h *verifC20Handler) drain() string {
 }
 
 type verifC20Scenario struct {
+	emu     sync.Mutex
 	epochs  map[string]int
 	seen    []string
 	t0      int64
@@ -58,6 +133,8 @@ func (s *verifC20Scenario) ep(e string) string {
 	if e == "" {
 		return "-"
 	}
+	s.emu.Lock()
+	defer s.emu.Unlock()
 	i, ok := s.epochs[e]
 	if !ok {
 		i = len(s.seen)
@@ -144,6 +221,8 @@ func (s *verifC20Scenario) parseEpoch(x string) (string, bool) {
 		if err != nil || k < 0 {
 			return "", false
 		}
+		s.emu.Lock()
+		defer s.emu.Unlock()
 		if k < len(s.seen) {
 			return s.seen[k], true
 		}
@@ -437,7 +516,7 @@ func verifC20RunScenario(t *testing.T, lines []string, emit func(string)) {
 			t.Fatal(err)
 		}
 		s := &verifC20Scenario{epochs: map[string]int{}, broker: broker}
-		s.handler = &verifC20Handler{fmt: func(ch string, pub *Publication, sp StreamPosition, useDelta bool, prev *Publication) string {
+		s.handler = &verifC20Handler{sc: s, fmt: func(ch string, pub *Publication, sp StreamPosition, useDelta bool, prev *Publication) string {
 			d := "0"
 			if useDelta {
 				d = "1"
@@ -460,18 +539,49 @@ func verifC20RunScenario(t *testing.T, lines []string, emit func(string)) {
 				continue
 			}
 			f := strings.Fields(line)
-			kv := verifC20KV(f[1:])
+			head := f[1:]
+			for i, w := range head {
+				if w == "|" {
+					head = head[:i]
+					break
+				}
+			}
+			kv := verifC20KV(head)
 			dt, err := strconv.ParseUint(kv["dt"], 10, 32)
 			if err != nil {
 				outs = append(outs, "bad-op")
 				continue
 			}
+			s.handler.sleeping.Store(true)
 			if dt > 0 {
 				time.Sleep(time.Duration(dt) * time.Millisecond)
 			}
 			synctest.Wait()
+			s.handler.sleeping.Store(false)
 			sw := s.handler.drain()
 			if f[0] == "adv" {
+				outs = append(outs, "sw="+sw+" ok bc=-")
+				continue
+			}
+			if f[0] == "hook" {
+				// hook ch= key= kind=in|co dt= | <op line>
+				sep := -1
+				for i, w := range f {
+					if w == "|" {
+						sep = i
+						break
+					}
+				}
+				key, okk := verifC20Unhex(kv["key"])
+				if sep < 0 || sep+1 >= len(f) || !okk || (kv["kind"] != "in" && kv["kind"] != "co") {
+					outs = append(outs, "bad-op")
+					continue
+				}
+				hkv := verifC20KV(f[1:sep])
+				s.handler.mu.Lock()
+				s.handler.hooks = append(s.handler.hooks, verifC20Hook{ch: "c" + hkv["ch"], key: key, conc: hkv["kind"] == "co",
+					cmd: f[sep+1], kv: verifC20KV(f[sep+2:])})
+				s.handler.mu.Unlock()
 				outs = append(outs, "sw="+sw+" ok bc=-")
 				continue
 			}
